@@ -19,6 +19,7 @@ import (
 	"path/filepath"
 	"sync"
 	"testing"
+	"time"
 
 	ms "github.com/go-sql-driver/mysql"
 	dbi "github.com/tinode/chat/server/db"
@@ -45,15 +46,44 @@ type c18Srv struct {
 	wg   sync.WaitGroup
 }
 
+// One private temp dir per test process; every run listens on a fresh socket inside it.
+var c18Tmp struct {
+	sync.Mutex
+	dir string
+	n   int
+}
+
+func c18NextSock() (string, int, error) {
+	c18Tmp.Lock()
+	defer c18Tmp.Unlock()
+	if c18Tmp.dir == "" {
+		d, err := os.MkdirTemp("", "c18my")
+		if err != nil {
+			return "", 0, err
+		}
+		c18Tmp.dir = d
+	}
+	c18Tmp.n++
+	return c18Tmp.dir, c18Tmp.n, nil
+}
+
+func c18Cleanup() {
+	c18Tmp.Lock()
+	defer c18Tmp.Unlock()
+	if c18Tmp.dir != "" {
+		os.RemoveAll(c18Tmp.dir)
+		c18Tmp.dir = ""
+	}
+}
+
 func c18StartServer() (*c18Srv, error) {
-	dir, err := os.MkdirTemp("", "c18my")
+	dir, n, err := c18NextSock()
 	if err != nil {
 		return nil, err
 	}
-	s := &c18Srv{core: &c18Core{}, dir: dir, sock: filepath.Join(dir, "m.sock"), cs: map[net.Conn]struct{}{}}
+	s := &c18Srv{core: &c18Core{}, dir: dir, sock: filepath.Join(dir, fmt.Sprintf("m%d.sock", n)), cs: map[net.Conn]struct{}{}}
 	s.l, err = net.Listen("unix", s.sock)
 	if err != nil {
-		os.RemoveAll(dir)
 		return nil, err
 	}
 	s.wg.Add(1)
@@ -80,8 +110,12 @@ func c18StartServer() (*c18Srv, error) {
 	return s, nil
 }
 
-func (s *c18Srv) config() string {
-	return fmt.Sprintf(`{"dsn":"u:p@unix(%s)/tinode?parseTime=true&interpolateParams=true"}`, s.sock)
+func (s *c18Srv) config(timeout bool) string {
+	to := ""
+	if timeout {
+		to = `,"sql_timeout":1`
+	}
+	return fmt.Sprintf(`{"dsn":"u:p@unix(%s)/tinode?parseTime=true&interpolateParams=true"%s}`, s.sock, to)
 }
 
 func (s *c18Srv) stop() {
@@ -92,7 +126,7 @@ func (s *c18Srv) stop() {
 	}
 	s.mu.Unlock()
 	s.wg.Wait()
-	os.RemoveAll(s.dir)
+	os.Remove(s.sock)
 }
 
 func c18Wpkt(w io.Writer, seq *byte, p []byte) {
@@ -204,6 +238,10 @@ func (s *c18Srv) serve(c net.Conn) {
 	stmts := map[uint32]string{}
 	nextID := uint32(0)
 	answer := func(rep c18Reply) bool {
+		if rep.Stall {
+			time.Sleep(c18StallFor)
+			defer s.core.stallEnd()
+		}
 		seq = 1
 		switch rep.Res {
 		case "drop":
@@ -314,7 +352,7 @@ func c18Boot() {
 			panic(err)
 		}
 		defer srv.stop()
-		cfg := fmt.Sprintf(`{"uid_key":"la6YsO+bNX/+XIkOqc5Svw==","use_adapter":"mysql","adapters":{"mysql":%s}}`, srv.config())
+		cfg := fmt.Sprintf(`{"uid_key":"la6YsO+bNX/+XIkOqc5Svw==","use_adapter":"mysql","adapters":{"mysql":%s}}`, srv.config(false))
 		if err := store.Store.Open(1, []byte(cfg)); err != nil {
 			panic("c18 boot: store.Open: " + err.Error())
 		}
@@ -322,8 +360,7 @@ func c18Boot() {
 	})
 }
 
-func c18Cleanup() {}
-
 func TestC18MySQL(tt *testing.T)     { c18RapidUnit(tt, "TestC18MySQL") }
 func TestC18MySQLEnum(tt *testing.T) { c18EnumUnit(tt, "TestC18MySQLEnum") }
+func TestC18MySQLStall(tt *testing.T) { c18StallUnit(tt, "TestC18MySQLStall") }
 func TestC18MySQLShow(tt *testing.T) { c18ShowUnit(tt) }
